@@ -485,6 +485,28 @@ func (c *Ctx) checkAbsentName() {
 				}
 			}
 			r.Check(good, "M3", key, c.P.Pos(firstPos(b)), "a link without a name is presented under the key \"\"", "the absent-name branch does not use the constant \"\" (iteration and lookup would disagree on nameless links)")
+			// the present side: the name compared / yielded is the link's own Name (phi edge or value derived from Name.Must())
+			present := b.Succs[0]
+			usesName := false
+			for rb := range dominatedRegion(present) {
+				for _, ins := range rb.Instrs {
+					if call, ok := ins.(*ssa.Call); ok {
+						if name, _ := methodCall(call); name == "Must" && strings.HasSuffix(c.accessPath(call, 0), "Name.Must()") {
+							// the value must be used: referenced by something other than a debug ref
+							if refs := call.Referrers(); refs != nil {
+								for _, ref := range *refs {
+									if _, isDbg := ref.(*ssa.DebugRef); !isDbg {
+										usesName = true
+									}
+								}
+							}
+						}
+					}
+				}
+			}
+			if len(present.Preds) == 1 {
+				r.Check(usesName, "M3", key+"/present", c.P.Pos(firstPos(present)), "a named link is presented under its own Name", "the branch for a link that has a name does not read it: every entry would be listed or matched under the same key")
+			}
 		}
 	}
 	r.Floor("M3", n, 2)
@@ -676,6 +698,17 @@ func (c *Ctx) checkFullScan(ts []*types.Named) {
 					if iff2 != nil && si == 1 {
 						if bo, ok := iff2.Cond.(*ssa.BinOp); ok && bo.Op == token.NEQ && (bo.X == keyP || bo.Y == keyP) {
 							okExit = true
+						}
+					}
+					// what the key is compared with is the link's own name (on some edge; "" on the others)
+					if okExit {
+						bo := iff2.Cond.(*ssa.BinOp)
+						other := bo.X
+						if other == keyP {
+							other = bo.Y
+						}
+						if !c.derivesFromLinkName(other, 0, map[ssa.Value]bool{}) {
+							bad = append(bad, fmt.Sprintf("the key is compared at %s with a value that never is the link's Name", c.P.Pos(bo.Pos())))
 						}
 					}
 					if !okExit {
@@ -1084,4 +1117,59 @@ func (c *Ctx) checkFoundIffNonNil() {
 		}
 	}
 	r.Floor("M11", n, 2)
+}
+
+// derivesFromLinkName: v is (on some phi edge / through String()) the value of <link>.Name.Must().
+func (c *Ctx) derivesFromLinkName(v ssa.Value, depth int, seen map[ssa.Value]bool) bool {
+	if v == nil || depth > 8 || seen[v] {
+		return false
+	}
+	seen[v] = true
+	if strings.Contains(c.accessPath(v, 0), "Name.Must()") {
+		return true
+	}
+	switch x := v.(type) {
+	case *ssa.Phi:
+		for _, e := range x.Edges {
+			if c.derivesFromLinkName(e, depth+1, seen) {
+				return true
+			}
+		}
+	case *ssa.Call:
+		for _, a := range x.Call.Args {
+			if c.derivesFromLinkName(a, depth+1, seen) {
+				return true
+			}
+		}
+		if x.Call.IsInvoke() {
+			return c.derivesFromLinkName(x.Call.Value, depth+1, seen)
+		}
+		// a repository helper that returns the link's name (linkName(link))
+		if h := x.Call.StaticCallee(); h != nil && len(h.Blocks) > 0 {
+			if _, isRepo := c.P.PkgOf(h); isRepo {
+				for _, ret := range core.Returns(h) {
+					for _, rv := range core.ResolvedResults(ret) {
+						if c.derivesFromLinkName(rv, depth+1, seen) {
+							return true
+						}
+					}
+				}
+			}
+		}
+	case *ssa.Extract:
+		return c.derivesFromLinkName(x.Tuple, depth+1, seen)
+	case *ssa.UnOp:
+		if al, ok := x.X.(*ssa.Alloc); ok && x.Op == token.MUL {
+			for _, ref := range *al.Referrers() {
+				if st, ok := ref.(*ssa.Store); ok && st.Addr == ssa.Value(al) && c.derivesFromLinkName(st.Val, depth+1, seen) {
+					return true
+				}
+			}
+		}
+	case *ssa.Convert:
+		return c.derivesFromLinkName(x.X, depth+1, seen)
+	case *ssa.ChangeType:
+		return c.derivesFromLinkName(x.X, depth+1, seen)
+	}
+	return false
 }
